@@ -4,6 +4,7 @@
 //	trace run  <opsfile|->
 //	trace gen  -seed N -profile P -histories K -ops M [-out DIR]
 //	trace addrs
+//	trace ids  [file|-]
 package main
 
 import (
@@ -20,6 +21,7 @@ func usage() {
   trace run  <opsfile|->                                    execute op lines, print step blocks
   trace gen  -seed N -profile P -histories K -ops M [-out DIR]  generate K random histories into DIR/h<i>.trace
   trace addrs                                               print the hex addresses: escrow deposit collector
+  trace ids  [file|-]                                       identifier lines (SPEC.md 4.3) from stdin, one answer line each
 profiles: `+strings.Join(profileNames(), " "))
 	os.Exit(2)
 }
@@ -40,6 +42,14 @@ func main() {
 		os.Exit(cmdRun(os.Args[2]))
 	case "gen":
 		os.Exit(cmdGen(os.Args[2:]))
+	case "ids":
+		path := "-"
+		if len(os.Args) == 3 {
+			path = os.Args[2]
+		} else if len(os.Args) != 2 {
+			usage()
+		}
+		os.Exit(cmdIDs(path))
 	case "addrs":
 		escrow, deposit, collector := moduleAddrs()
 		fmt.Printf("%x %x %x\n", []byte(escrow), []byte(deposit), []byte(collector))
@@ -83,7 +93,7 @@ func cmdRun(path string) int {
 		}
 		out.Flush()
 		if sim.Stopped {
-			break // R panic on endblock ends the trace
+			break // R panic on endblock, or reimport, ends the trace
 		}
 	}
 	if err := sc.Err(); err != nil {
